@@ -9,12 +9,14 @@ import Driver.Prov
 import Driver.Height
 import Driver.Wire
 import Driver.Config
+import Driver.System
 
 open Driver
 
-def evalLine (input : String) : Option String :=
+def evalLine (input observed : String) : Option String :=
   let ws := words input
   match ws with
+  | "sy" :: _ => evalSystem ws observed
   | "pw" :: _ => evalProv ws
   | "pa" :: _ => evalProv ws
   | "hw" :: _ => evalHeight ws
@@ -35,7 +37,7 @@ partial def loop (h : IO.FS.Stream) (n d bad : Nat) (lineNo : Nat) : IO (Nat × 
       IO.println s!"BADLINE {lineNo}: {line}"
       loop h n d (bad + 1) (lineNo + 1)
     | some (input, observed) =>
-      match evalLine input with
+      match evalLine input observed with
       | none =>
         IO.println s!"BADLINE {lineNo}: {line}"
         loop h n d (bad + 1) (lineNo + 1)
